@@ -937,7 +937,7 @@ def strace_run(task):
     else:
         if norm != want:
             res['problems'].append('syscall sequence %r differs from traced event sequence %r' % (norm, want))
-        if fdest != sc.new or len(final) != 1:
+        if fdest != sc.new or sorted(k for k in final if k != SNAPSHOT) != [sc.name]:
             res['problems'].append('unpatched run left %r' % {k: len(v[1]) for k, v in final.items()})
     shutil.rmtree(d, ignore_errors=True)
     try:
@@ -1006,8 +1006,11 @@ def run(ctx):
         cov['samples'].append({'config': cfgs[0], 'event_log': [list(map(str, e)) for e in results[0][1]]})
         # strace conformance
         if shutil.which('strace'):
+            # the strace driver runs one plain `with atomic_save(...)` whose body writes, flushes and seeks: every such
+            # configuration in the thorough tier
+            plain = ('none', 'one', 'two', 'many', 'big', 'mix', 'flush', 'seek', 'bigflush', 'huge')
             sel = [i for i, c in enumerate(cfgs) if not c.get('interleaved') and not c.get('fsync_fails')
-                   and c['body'] not in ('sysexit', 'kbint', 'raises')] \
+                   and not c.get('api') and not c.get('dest_name') and c['body'] in plain] \
                 if not ctx.quick() else \
                 [i for i, c in enumerate(cfgs) if c['body'] in ('mix', 'seek') and c['file_perms'] is None
                  and c.get('buffering') is None][:6] + \
